@@ -36,6 +36,8 @@ Frag ==
   @@ "sltags"  :> F("Fsltags" :> Slice("Fsltags"), {}, {})                   \* defined slice type
   @@ "nest"    :> F(("Fnest.X" :> Src("Fnest.X")) @@ ("Fnest.Y" :> Src("Fnest.Y")), {}, {})   \* member-wise, by value
   @@ "nestE"   :> F(("FnestE.X" :> Call("CvE2", Src("FnestE.X"))) @@ ("FnestE.Y" :> Src("FnestE.Y")), {"CvE2"}, {"CvE2"})
+  @@ "nestE2"  :> F(("FnestD.In.X" :> Call("CvE3", Src("FnestD.In.X"))) @@ ("FnestD.In.Y" :> Src("FnestD.In.Y")) @@ ("FnestD.K" :> Src("FnestD.K")),
+                    {"CvE3"}, {"CvE3"})                                     \* error-returning converter two structs deep
   @@ "ptr"     :> F("Fptr" :> Src("Fptr"), {}, {})                           \* pointer value copied
   @@ "skip"    :> F(None, {}, {})                                            \* :skip Fskip - the leaf keeps its value
   @@ "nomatch" :> F(None, {}, {})                                            \* no source - the leaf keeps its value
